@@ -18,7 +18,8 @@
   `init; compute`, from any prior object state), `c14_gen_opcount_at_throw`, `c14_gen_recover` (recovery with `Respects`
   discharged by C06's `gen_respects`: unconditional).
   Source facts regenerated on every run (`Gen.FaultFootprint`): no raw allocation in any function of the solver, factorization and
-  helper classes, and the only try/catch is a catch-all that restores the operator's shift and rethrows the same exception (`c14_no_leak`), `SparseRegularInverse::solve` is a conforming thrower (`c14_lib_thrower`).
+  helper classes, and the only try/catch is a catch-all `catch (...)` that restores the operator's shift and rethrows the same exception
+  object with a bare `throw;`; no caught object is re-thrown by value anywhere (`c14_no_leak`, `c14_rethrow_same_object`), `SparseRegularInverse::solve` is a conforming thrower (`c14_lib_thrower`).
 -/
 import SpectraVerif.Properties.C06
 import SpectraVerif.Properties.C12
@@ -246,16 +247,42 @@ open Gen.FaultFootprint in
     So every local of `restart`/`compute`/`factorize_from`/`expand_basis`/`retrieve_ritzpair`/`sort_ritzpair` is an automatic
     object (unwinding destroys it: `c14_unwind_frees_all`), and nothing between the operator and the caller swallows the user's
     exception or replaces it by another one (any other handler, a handler that does not end in `throw;`, a typed handler, or
-    any further call inside the handler changes the regenerated lists and breaks this theorem). -/
+    any further call inside the handler changes the regenerated lists and breaks this theorem).
+    The handler IS A CATCH-ALL: the third component `true` of `catch_handlers` and the exception-declaration `"..."` in
+    `catch_handler_decl` say `catch (...)`, not `catch (const std::exception&)` — the user's operator may signal failure with
+    ANY type (`throw 42;`, a struct that is not derived from `std::exception`), and a typed handler lets those pass without
+    re-installing the shift (seeded change C14b/patch3; failing input: harness fault kinds raw_struct / int / cstring in a
+    probing solve).  The re-throw is the BARE `throw;` (fourth component `true`, the handler's only throw expression), and
+    `rethrow_by_value = []`: nowhere in the scanned classes is a caught object thrown again by value (`throw e;` creates a new
+    object of the handler's declared type: the user's exception is sliced, dynamic type and payload are lost; seeded change
+    C14b/patch2, failing input: `exception-sliced`), nor transported through `std::exception_ptr`/`throw_with_nested`. -/
 theorem c14_no_leak :
     raw_alloc = [] ∧ required_missing = [] ∧
     try_catch = [("GenEigsComplexShiftSolver", "sort_ritzpair", "catch"), ("GenEigsComplexShiftSolver", "sort_ritzpair", "try")] ∧
     catch_handlers = [("GenEigsComplexShiftSolver", "sort_ritzpair", true, true, ["m_op.set_shift(m_sigmar,m_sigmai)"])] ∧
     catch_handler_shape = [("GenEigsComplexShiftSolver", "sort_ritzpair", 2, 1)] ∧
+    catch_handler_decl = [("GenEigsComplexShiftSolver", "sort_ritzpair", "...")] ∧
+    rethrow_by_value = [] ∧
     (∀ t ∈ throws, t.2.2 = "std::invalid_argument" ∨ t.2.2 = "std::logic_error" ∨ t.2.2 = "std::runtime_error" ∨
       t = ("GenEigsComplexShiftSolver", "sort_ritzpair", "rethrow")) ∧
     (throws.filter (fun t => t.2.2 == "rethrow")).length = catch_handlers.length ∧
-    scanned.length ≥ 40 := by decide
+    scanned.length ≥ 40 :=
+  ⟨by decide, by decide, by decide, by decide, by decide, by decide, by decide, by decide, by decide, by decide⟩
+
+open Gen.FaultFootprint in
+/-- the same facts in the form the property uses them, for EVERY handler of the scanned classes (however many there are): each
+    handler is a catch-all `catch (...)` — it runs for an exception of ANY type, derived from `std::exception` or not —, its last
+    statement is a bare `throw;` and that is its only throw expression, so the exception object that entered the handler is the
+    one that leaves it (same dynamic type, same payload, no copy); no `throw <caught variable>;` and no exception-transport call
+    exists in any scanned function; and every `throw;` of the scanned classes sits in a function that has such a handler. -/
+theorem c14_rethrow_same_object :
+    (∀ h ∈ catch_handlers, h.2.2.1 = true ∧ h.2.2.2.1 = true) ∧
+    (∀ d ∈ catch_handler_decl, d.2.2 = "...") ∧
+    (∀ sh ∈ catch_handler_shape, sh.2.2.2 = 1) ∧
+    rethrow_by_value = [] ∧
+    (∀ t ∈ throws, t.2.2 = "rethrow" → ∃ h ∈ catch_handlers, h.1 = t.1 ∧ h.2.1 = t.2.1) ∧
+    catch_handlers.length = catch_handler_decl.length :=
+  ⟨by decide, by decide, by decide, by decide, by decide, by decide⟩
 
 /-- unwinding model (the one of C12): if every resource acquired before the throw point is owned by an automatic object,
     nothing is live after unwinding, wherever the exception is raised -/
